@@ -12,6 +12,13 @@ Inductive reachable : state A -> Prop :=
 | reach_init : reachable (init A)
 | reach_step s a s' : reachable s -> step s a = Some s' -> reachable s'.
 
+Lemma run_reachable acts s s' : reachable s -> run s acts = Some s' -> reachable s'.
+Proof.
+  revert s. induction acts as [|a acts IH]; intros s Hr; cbn [run].
+  - intros E; inversion E; subst; exact Hr.
+  - destruct (step s a) as [s1|] eqn:E; [|discriminate]. apply IH. eapply reach_step; eauto.
+Qed.
+
 (* ------------------------------------------------------------------ one copier move *)
 Lemma copier_step_spec p src dst k w p' src' dst' :
   copier_step p src dst k w = Some (p', src', dst') ->
